@@ -6,6 +6,7 @@
   `rand.Intn` calls): all fibres of `draws ↦ outcome` have the same size.
 -/
 import Gotree.Lemmas.C20Topo
+import Gotree.Lemmas.C20Rose
 
 namespace Gotree.C20
 open Gotree
@@ -129,6 +130,31 @@ theorem randomTips_positions (t : T) (k : Nat) (d : List Nat) :
     randomTips t k d = (reservoir k (List.range t.tipNames.length) d).map fun q => t.tipNames.getD q "" :=
   reservoir_positions k t.tipNames "" d
 
+/-! ### `gotree prune`: which option decides (`pruneSelection`, compared with the binary) -/
+
+/-- only `--random k` (k > 0) without `-f` and `-c` draws, and then it is `randomTips`, to which
+    `reservoir_uniform` applies through `randomTips_positions` -/
+theorem pruneSelection_random (k : Nat) (hk : 0 < k) (args : List String) (t : T) (d : List Nat) :
+    pruneSelection none none (k : Int) args t d = randomTips t k d := by
+  simp only [pruneSelection, gt_iff_lt, Int.natCast_pos, hk, if_true, Int.toNat_natCast]
+
+/-- with `-f`, with `-c`, or without a positive `--random`, the selection does not depend on the draws -/
+theorem pruneSelection_deterministic (tipfile comp : Option (List String)) (random : Int) (args : List String)
+    (t : T) (d1 d2 : List Nat) (h : tipfile.isSome ∨ comp.isSome ∨ random ≤ 0) :
+    pruneSelection tipfile comp random args t d1 = pruneSelection tipfile comp random args t d2 := by
+  cases tipfile with
+  | some l => rfl
+  | none =>
+    cases comp with
+    | some c => rfl
+    | none =>
+      have hr : ¬ (random > 0) := by
+        rcases h with h | h | h
+        · simp at h
+        · simp at h
+        · omega
+      simp [pruneSelection, hr]
+
 /-! ### reservoir sampling with replacement (`gotree sample --replace`) -/
 
 example : sampleReplace 2 (List.range 3) [0, 0, 1, 0, 2, 1] = [some 0, some 1] := by decide
@@ -144,6 +170,71 @@ theorem replace_uniform (k n : Nat) (a : List Nat) (hk : a.length = k) (ha : ∀
   unfold cnt at this
   simp only [sampleReplace, List.range_eq_range']
   rw [this, ← hk, slotProd_none n a ha]
+
+/-! ### the `gotree sample` command as a whole (`sampleCmd`, compared with the binary) -/
+
+example : (sampleCmd 2 false true [some 0, some 1, some 2, some 3] [0, 3] == CmdRes.ok [2, 1]) = true := by decide
+example : (sampleCmd 2 false true [some 0, none] [] == (CmdRes.err : CmdRes Nat)) = true := by decide
+example : (sampleCmd (-1) false true [some 0] [] == (CmdRes.panic : CmdRes Nat)) = true := by decide
+
+/-- a readable input and a size `k ≥ 0`: the command writes exactly the reservoir -/
+theorem sampleCmd_noreplace (k : Nat) (items : List α) (d : List Nat) :
+    sampleCmd (k : Int) false true (items.map some) d = CmdRes.ok (reservoir k items d) := by
+  have h1 : ¬ ((k : Int) < 0) := by omega
+  have h2 : (items.map some).any (·.isNone) = false := by simp
+  have h3 : (items.map some).filterMap id = items := by simp [List.filterMap_map]
+  simp [sampleCmd, h2, h3]
+
+/-- an unreadable tree anywhere in the input: an error, nothing is written, whatever the draws -/
+theorem sampleCmd_err (k : Nat) (replace : Bool) (items : List (Option α)) (d : List Nat)
+    (h : none ∈ items) : sampleCmd (k : Int) replace true items d = CmdRes.err := by
+  have h1 : ¬ ((k : Int) < 0) := by omega
+  have h2 : items.any (·.isNone) = true := by
+    rw [List.any_eq_true]; exact ⟨none, h, rfl⟩
+  simp [sampleCmd, h2]
+
+/-- `--replace` on `n ≥ 1` readable trees never dereferences an empty slot: the command writes
+    the `k` slots of `sampleReplace` (to which `replace_uniform` applies) -/
+theorem sampleCmd_replace (k n : Nat) (hn : 1 ≤ n) (d : List Nat) (hd : d ∈ space (sampleCmdScript k true n)) :
+    ∃ out, sampleCmd (k : Int) true true ((List.range n).map some) d = CmdRes.ok out ∧
+      out.map some = sampleReplace k (List.range n) d := by
+  have hb : inBounds (replScript k n) d = true := by
+    have := (mem_space_iff _ _).1 hd
+    simpa [sampleCmdScript] using this
+  have hall := sampleReplace_allSome k n hn d hb
+  have h1 : ¬ ((k : Int) < 0) := by omega
+  have h2 : ((List.range n).map some).any (·.isNone) = false := by simp
+  have h3 : ((List.range n).map some).filterMap id = List.range n := by simp [List.filterMap_map]
+  have hnone : (sampleReplace k (List.range n) d).any (·.isNone) = false := by
+    rw [Bool.eq_false_iff]
+    intro hany
+    rw [List.any_eq_true] at hany
+    obtain ⟨o, ho, hn'⟩ := hany
+    have hs := List.all_eq_true.1 hall o ho
+    cases o with
+    | none => simp at hs
+    | some v => simp at hn'
+  refine ⟨(sampleReplace k (List.range n) d).filterMap id, ?_, ?_⟩
+  · simp [sampleCmd, h2, h3, hnone]
+  · generalize sampleReplace k (List.range n) d = l at hall
+    induction l with
+    | nil => rfl
+    | cons o l ih =>
+      simp only [List.all_cons, Bool.and_eq_true] at hall
+      cases o with
+      | none => simp at hall
+      | some v => simp [ih hall.2]
+
+/-- `reservoir_uniform` at the level of the command: among the draw lists of a run on `n` readable
+    trees, exactly `(n-k)!` make it write the `k`-subset `s` -/
+theorem sampleCmd_uniform (k n : Nat) (hk : k ≤ n) (s : List Bool) (hS : isSubsetK s k n = true) :
+    ((space (sampleCmdScript k false n)).filter fun d =>
+        match sampleCmd (k : Int) false true ((List.range n).map some) d with
+        | .ok out => indicator n out == s
+        | _ => false).length = fact (n - k) := by
+  rw [← reservoir_uniform k n hk s hS]
+  simp only [sampleCmd_noreplace, sampleCmdScript, Int.toNat_natCast]
+  rfl
 
 /-! ### `rand.Perm` (inside-out Fisher–Yates) and `ShuffleTips` -/
 
@@ -181,16 +272,16 @@ example : [0, 1, 0, 2] ∈ space (shuffleScript exT) := by decide
 example : shuffleTips exT [0, 1, 0, 2] = ["c", "b", "d", "a"] := by decide
 example : randomTips exT 2 [0, 3] = ["c", "b"] := by decide
 
-/-- `ShuffleTips` on a tree whose root is not a tip and whose tip names are unique: the new
+/-- `ShuffleTips` on a tree whose tip names are unique (the root may be a tip): the new
     names (in `Tips()` order) are a permutation of the old ones, and different draw lists
     give different assignments — with `perm_space_size`, each of the `n!` assignments of the
     names to the tips comes from exactly one draw list. -/
-theorem shuffleTips_bijective (t : T) (hr : (t.kids.length == 1) = false) (hu : t.tipNames.Nodup) :
+theorem shuffleTips_bijective_all (t : T) (hu : t.tipNames.Nodup) :
     (∀ d ∈ space (shuffleScript t), (shuffleTips t d).Perm t.tipNames) ∧
     (∀ d1 ∈ space (shuffleScript t), ∀ d2 ∈ space (shuffleScript t),
         shuffleTips t d1 = shuffleTips t d2 → d1 = d2) ∧
     (∀ q : List String, q.Perm t.tipNames → ∃ d ∈ space (shuffleScript t), shuffleTips t d = q) := by
-  have hn : allTipNames t = t.tipNames := by simp [allTipNames, T.tipNames, hr]
+  have hn : allTipNames t = t.tipNames := by simp [allTipNames, T.tipNames]
   have hform : ∀ d ∈ space (shuffleScript t),
       shuffleTips t d = (goPerm d).map (fun q => t.tipNames.getD q "") ∧ (goPerm d).Perm (List.range t.tipNames.length) := by
     intro d hd
@@ -200,7 +291,7 @@ theorem shuffleTips_bijective (t : T) (hr : (t.kids.length == 1) = false) (hu : 
     have hp := goPerm_perm _ d hb
     have hpl : (goPerm d).length = t.tipNames.length := by simpa using hp.length_eq
     refine ⟨?_, hp⟩
-    simp only [shuffleTips, hn]
+    simp only [shuffleTips, shuffleTipsWith, hn]
     rw [List.take_of_length_le (by omega), hpl, List.drop_length, List.append_nil]
   refine ⟨?_, ?_, ?_⟩
   · intro d hd
@@ -225,6 +316,30 @@ theorem shuffleTips_bijective (t : T) (hr : (t.kids.length == 1) = false) (hu : 
     have hd' : d ∈ space (shuffleScript t) := by
       rw [mem_space_iff]; simpa [shuffleScript, hn] using hd
     exact ⟨d, hd', by rw [(hform d hd').1, hg, hpq]⟩
+
+/-- (statement of round 1, kept: the hypothesis on the root is no longer needed since 9642e30) -/
+theorem shuffleTips_bijective (t : T) (_hr : (t.kids.length == 1) = false) (hu : t.tipNames.Nodup) :
+    (∀ d ∈ space (shuffleScript t), (shuffleTips t d).Perm t.tipNames) ∧
+    (∀ d1 ∈ space (shuffleScript t), ∀ d2 ∈ space (shuffleScript t),
+        shuffleTips t d1 = shuffleTips t d2 → d1 = d2) ∧
+    (∀ q : List String, q.Perm t.tipNames → ∃ d ∈ space (shuffleScript t), shuffleTips t d = q) :=
+  shuffleTips_bijective_all t hu
+
+/-- `((a,b,c))r;`: a tree whose root is itself a tip -/
+def exTipRoot : T :=
+  .node ⟨"r", []⟩ 0 [(EdgeD.blank, .node ⟨"", []⟩ 0
+    [(EdgeD.blank, T.leaf "a"), (EdgeD.blank, T.leaf "b"), (EdgeD.blank, T.leaf "c")])]
+
+example : exTipRoot.tipNames = ["r", "a", "b", "c"] ∧ exTipRoot.tipNames.Nodup := by decide
+example : shuffleTips exTipRoot [0, 1, 0, 2] = ["b", "a", "c", "r"] := by decide
+
+/-- before 9642e30 `AllTipNames()` stopped at a root that is a tip: on `((a,b,c))r;` `ShuffleTips`
+    drew `rand.Perm(1)` and every tip kept its name — 1 of the 24 arrangements, whatever the seed -/
+theorem shuffleTips_pinned_fails :
+    (space (permScript (allTipNamesPinned exTipRoot).length)).length = 1 ∧
+    ∀ d ∈ space (permScript (allTipNamesPinned exTipRoot).length),
+      shuffleTipsPinned exTipRoot d = exTipRoot.tipNames := by
+  decide
 
 /-! ### `RotateNeighbors` -/
 
@@ -252,6 +367,20 @@ theorem rotate_bijective (n : Nat) :
   · intro p hp
     obtain ⟨d, hd, he⟩ := b3 p hp
     exact ⟨d, hd, by rw [hr d hd, he]⟩
+
+example : rotAllPerms [3, 1, 2] [0, 0, 1, 0, 0, 1] = [[1, 2, 0], [0], [0, 1]] := by decide
+example : [0, 0, 1, 0, 0, 1] ∈ space (rotAllPermScript [3, 1, 2]) := by decide
+
+/-- `RotateInternalNodes` (`gotree rotate rand`): with `degs` the numbers of neighbours of the nodes
+    in `Nodes()` order, the draw lists correspond one to one to the choices of one arrangement of
+    the neighbour positions for every node — all nodes are rotated independently and uniformly. -/
+theorem rotateInternalNodes_bijective (degs : List Nat) :
+    (∀ d ∈ space (rotAllPermScript degs), PermsOf (rotAllPerms degs d) degs) ∧
+    (∀ d1 ∈ space (rotAllPermScript degs), ∀ d2 ∈ space (rotAllPermScript degs),
+        rotAllPerms degs d1 = rotAllPerms degs d2 → d1 = d2) ∧
+    (∀ ps : List (List Nat), PermsOf ps degs →
+        ∃ d ∈ space (rotAllPermScript degs), rotAllPerms degs d = ps) :=
+  rotAllPerms_bijective' degs
 
 /-! ### `RandomUniformBinaryTree` -/
 
@@ -297,6 +426,61 @@ theorem uniform_unrooted_bijective (n : Nat) (hn : 2 ≤ n) :
   · rw [loopBounds_eq, dfact_space]
     simp only [utreeInit, numTopologies]
     exact prod_unrooted (n - 2)
+
+/-! #### the same for the rose tree that is compared with the code's α dump
+
+  `roseTree rooted d` follows `RandomUniformBinaryTree` on the rose tree rooted at `n2`
+  (`GraftTipOnEdge` creating the node with neighbours `[n, lnode, rnode]`); the driver compares
+  it — after `RerootFirst` for unrooted trees, `roseFinal` — with the α dump of the generated
+  tree: names, neighbour order, parent positions.  Its branches have exactly the clusters that
+  `utree` lists, so the theorems above are theorems about that tree. -/
+
+example : branchClusters 5 (roseTree false [0, 2, 1]) =
+    [[1, 2, 3, 4], [2, 4], [4], [2], [1, 3], [3], [1]] := by decide
+
+/-- the clusters of the branches of the rose tree (in `Edges()` order) are, up to order, the
+    clusters `utree` holds for the `edges` slice — rooted or not, for every draw list -/
+theorem rose_clusters (rooted : Bool) (n : Nat) (hn : 2 ≤ n) (d : List Nat)
+    (hd : d ∈ space (utreeBounds rooted n)) :
+    (branchClusters n (roseTree rooted d)).Perm (utree rooted d) := by
+  obtain ⟨m, rfl⟩ : ∃ m, n = 2 + m := ⟨n - 2, by omega⟩
+  have hb := (mem_space_iff _ _).1 hd
+  rw [loopBounds_eq, show 2 + m - 2 = m by omega] at hb
+  exact (roseLoop_inv rooted m d hb).2
+
+/-- `RerootFirst` (unrooted trees, `n ≥ 3`) only moves the root pointer from `Tip0` to its
+    neighbour: the branches of the final tree `roseFinal` — the one compared with the α dump —
+    have the clusters of `roseTree`, except that the branch of `Tip0` is now seen from the other
+    side (`{0}` instead of `{1, …, n-1}`): the same splits. -/
+theorem roseFinal_clusters (n : Nat) (hn : 3 ≤ n) (d : List Nat) (hd : d ∈ space (utreeBounds false n)) :
+    (branchClusters n (roseFinal false d)).Perm ([0] :: (branchClusters n (roseTree false d)).tail) := by
+  obtain ⟨m, rfl⟩ : ∃ m, n = m + 3 := ⟨n - 3, by omega⟩
+  have hb := (mem_space_iff _ _).1 hd
+  rw [loopBounds_eq, show m + 3 - 2 = m + 1 by omega] at hb
+  have hs := roseLoop_shape m d (by simpa [utreeInit] using hb)
+  simp only [roseFinal, Bool.false_eq_true, if_false]
+  exact roseReroot_clusters (m + 3) (by omega) _ hs
+
+/-- `uniform_unrooted_bijective`, stated for the tree itself: the branch clusters of the generated
+    rose tree determine the draw list, every unrooted binary topology is the cluster set of the
+    tree of some draw list, and every generated tree is such a topology. -/
+theorem uniform_unrooted_bijective_rose (n : Nat) (hn : 2 ≤ n) :
+    (∀ d ∈ space (utreeBounds false n), ∃ bt : BT, bt.isUnrootedOn n ∧
+        (branchClusters n (roseTree false d)).Perm (bt.clusters n)) ∧
+    (∀ d1 ∈ space (utreeBounds false n), ∀ d2 ∈ space (utreeBounds false n),
+        (branchClusters n (roseTree false d1)).Perm (branchClusters n (roseTree false d2)) → d1 = d2) ∧
+    (∀ bt : BT, bt.isUnrootedOn n →
+        ∃ d ∈ space (utreeBounds false n), (branchClusters n (roseTree false d)).Perm (bt.clusters n)) := by
+  obtain ⟨b1, b2, b3, _⟩ := uniform_unrooted_bijective n hn
+  refine ⟨?_, ?_, ?_⟩
+  · intro d hd
+    obtain ⟨bt, h1, h2⟩ := b1 d hd
+    exact ⟨bt, h1, (rose_clusters false n hn d hd).trans h2⟩
+  · intro d1 h1 d2 h2 hp
+    exact b2 d1 h1 d2 h2 (((rose_clusters false n hn d1 h1).symm.trans hp).trans (rose_clusters false n hn d2 h2))
+  · intro bt hbt
+    obtain ⟨d, hd, hp⟩ := b3 bt hbt
+    exact ⟨d, hd, (rose_clusters false n hn d hd).trans hp⟩
 
 /-- The rooted generator too maps different draw lists to different topologies … -/
 theorem uniform_rooted_injective (n : Nat) :
